@@ -42,7 +42,8 @@ struct Plan {
 fn plan(prop: &str, thorough: bool, seed: u64) -> Plan {
     let mut tasks = vec![];
     let mut add = |rg: &Regime, n: u64, tasks: &mut Vec<Task>| {
-        let n = if thorough { n * 12 } else { n };
+        // quick: a few seconds per property on 16 cores; thorough: ten times that
+        let n = if thorough { n * 40 } else { n * 4 };
         for i in 0..n {
             tasks.push(Task::Random(rg.clone(), seed.wrapping_mul(1_000_003).wrapping_add(i * 7919 + rg.name.len() as u64 * 104729)));
         }
@@ -62,8 +63,8 @@ fn plan(prop: &str, thorough: bool, seed: u64) -> Plan {
         "C11" => { add(&DEEP, 60, &mut tasks); add(&TRADE, 400, &mut tasks); add(&HOSTILE, 200, &mut tasks); add(&LEGACY, 50, &mut tasks); }
         "C12" => { let mut m = TRADE.clone(); m.name = "modify-heavy"; m.modify_pct = 30; add(&m, 400, &mut tasks); let mut hm = HOSTILE.clone(); hm.modify_pct = 30; add(&hm, 200, &mut tasks); p.modify_matrix = true; }
         "C13" => { add(&TRADE, 60, &mut tasks); p.inst_matrix = true; p.integrality = true; }
-        "C14" => { let n = if thorough { 6000 } else { 500 }; for i in 0..n { tasks.push(Task::Migration(seed * 77 + i)); } for i in 0..n / 3 { tasks.push(Task::RandomLogs(seed * 131 + i)); } p.version_matrix = true; }
-        "C15" => { let n = if thorough { 8000 } else { 700 }; for i in 0..n { tasks.push(Task::Migration(seed * 77 + i)); } for i in 0..n / 2 { tasks.push(Task::RandomLogs(seed * 131 + i)); } p.version_matrix = true; }
+        "C14" => { let n = if thorough { 20000 } else { 2000 }; for i in 0..n { tasks.push(Task::Migration(seed * 77 + i)); } for i in 0..n / 3 { tasks.push(Task::RandomLogs(seed * 131 + i)); } p.version_matrix = true; }
+        "C15" => { let n = if thorough { 28000 } else { 2800 }; for i in 0..n { tasks.push(Task::Migration(seed * 77 + i)); } for i in 0..n / 2 { tasks.push(Task::RandomLogs(seed * 131 + i)); } p.version_matrix = true; }
         "C16" => { add(&TRADE, 300, &mut tasks); add(&LEGACY, 100, &mut tasks); add(&HOSTILE, 100, &mut tasks); }
         "C17" => { add(&TRADE, 500, &mut tasks); add(&GRIND, 200, &mut tasks); add(&ROLES, 150, &mut tasks); add(&HOSTILE, 100, &mut tasks); p.marker_matrix = true; }
         _ => { add(&TRADE, 200, &mut tasks); add(&HOSTILE, 100, &mut tasks); add(&GRIND, 60, &mut tasks); add(&BIG, 40, &mut tasks); add(&LEGACY, 40, &mut tasks); add(&DEEP, 10, &mut tasks); for i in 0..100 { tasks.push(Task::Migration(seed * 77 + i)); } p.marker_matrix = true; p.inst_matrix = true; p.modify_matrix = true; p.version_matrix = true; p.integrality = true; }
